@@ -483,6 +483,7 @@ long vh_req_count;
 volatile int vh_seam_armed;
 char vh_req_log[256];
 vh_release_cb vh_on_release;
+vh_request_cb vh_on_request;
 struct vh_blk vh_ledger[512];
 int vh_nledger;
 long vh_bad_free;
@@ -547,7 +548,8 @@ mmap (void *addr, size_t len, int prot, int flags, int fd, off_t off)
   if (lib)
     {
       vh_mmap_calls++;
-      if (seam_request ('M'))
+      /* 'H': a huge-page attempt, which the library treats as optional (and which this sandbox always refuses) */
+      if (seam_request ((flags & MAP_HUGETLB) ? 'H' : 'M'))
         {
           errno = ENOMEM;
           return MAP_FAILED;
@@ -634,6 +636,8 @@ malloc (size_t n)
 {
   if (vh_seam_armed)
     {
+      if (vh_on_request)
+        vh_on_request ('m', n);
       if (seam_request ('m'))
         {
           errno = ENOMEM;
@@ -652,6 +656,8 @@ calloc (size_t a, size_t b)
 {
   if (vh_seam_armed)
     {
+      if (vh_on_request)
+        vh_on_request ('m', a * b);
       if (seam_request ('m'))
         {
           errno = ENOMEM;
@@ -673,6 +679,8 @@ realloc (void *old, size_t n)
 {
   if (vh_seam_armed)
     {
+      if (vh_on_request)
+        vh_on_request ('r', n);
       if (seam_request ('r'))
         {
           errno = ENOMEM;
